@@ -307,7 +307,7 @@ func ruleWrapID(w *World, r *Report) {
 			if ms, ok := st.Val.(*ssa.MakeSlice); ok {
 				for _, ref := range referrers(ms) {
 					if cc, ok := ref.(*ssa.Call); ok {
-						if b, okb := cc.Call.Value.(*ssa.Builtin); okb && b.Name() == "copy" && cc.Call.Args[0] == ssa.Value(ms) && cc.Call.Args[1] == ssa.Value(wr.Params[1]) {
+						if b, okb := cc.Call.Value.(*ssa.Builtin); okb && nm(b) == "copy" && cc.Call.Args[0] == ssa.Value(ms) && cc.Call.Args[1] == ssa.Value(wr.Params[1]) {
 							reads = true
 							before = instrDominates(cc, c)
 						}
